@@ -694,7 +694,7 @@ func TestVerif_C41(t *testing.T) {
 	if r.Thorough() {
 		tier = 1
 	}
-	r.Rule("every event sequence (BFS, deduplicated on the auth storage + time) from each seed state is executed on the real auth+ontid contracts; in every distinct state verifyToken is called for every (identity, function, key proof) and compared with the reference model; a class is (reference verdict, reason) of one query or the outcome of one operation kind")
+	r.Rule("every event sequence (BFS, deduplicated on auth storage + time + reference state) from each seed state is executed on the real auth+ontid contracts; in every distinct state verifyToken is called for every (identity, function, key proof) and compared with the reference model; a class is (reference verdict, reason) of one query or the outcome of one operation kind")
 	var bounds []string
 	for _, sd := range seeds {
 		bounds = append(bounds, fmt.Sprintf("%s:depth<=%d", sd.name, sd.depth[tier]))
